@@ -229,7 +229,10 @@ func getObjectValueFromKey(v interface{}, key string) (interface{}, error) {
 	rv := reflect.ValueOf(v)
 	switch rt.Kind() {
 	case reflect.Map:
-		mv := rv.MapIndex(reflect.ValueOf(key))
+		if rt.Key().Kind() != reflect.String {
+			return nil, fmt.Errorf("can't access attribute '%s' of %T: not a string-keyed map", key, v)
+		}
+		mv := rv.MapIndex(reflect.ValueOf(key).Convert(rt.Key()))
 		if !mv.IsValid() {
 			return nil, nil
 		}
